@@ -11,7 +11,7 @@ cd $E/repo || exit 2
 git checkout -q --detach $(git -C /repo rev-parse HEAD) 2>/dev/null
 git checkout -- . && git clean -fdq -- insim insim_core insim_pth insim_smx
 if [ -n "$P" ] && [ "$P" != "none" ]; then git apply "$P" || exit 2; fi
-rsync -a --delete --exclude target /verif/harness/ $E/harness/; rsync -a --delete /verif/spec/ $E/spec/
+rsync -a --delete --exclude target ${HARNESS_SRC:-/verif/harness}/ $E/harness/; rsync -a --delete /verif/spec/ $E/spec/
 sed -i "s#/repo/#$E/repo/#g" $E/harness/Cargo.toml $E/harness/build.rs
 cd $E/harness || exit 2
 if ! CARGO_NET_OFFLINE=true CARGO_TARGET_DIR=$E/target cargo build --release --offline >$E/build.log 2>&1; then echo "build failed"; tail -30 $E/build.log; exit 2; fi
